@@ -83,7 +83,8 @@ class TokenBucketPolicy:
     ):
         self._capacity = float(capacity)
         self._refill_rate = float(refill_rate)
-        self._tokens = self._capacity if initial_tokens is None else float(initial_tokens)
+        # The bucket never holds more than its capacity, also initially
+        self._tokens = self._capacity if initial_tokens is None else min(self._capacity, float(initial_tokens))
         self._last_refill_time: Instant | None = None
 
     @property
